@@ -577,6 +577,16 @@ func genCase(r *rand.Rand) Case {
 				c.Text = gen.EditText(r, c.Text)
 			}
 		}
+		switch r.IntN(14) {
+		case 0:
+			c.Text = strings.ReplaceAll(c.Text, "\n", "\r\n")
+		case 1:
+			c.Text = strings.ReplaceAll(c.Text, "\n  ", "\n\t")
+		case 2:
+			c.Text = strings.TrimRight(c.Text, "\n")
+		case 3:
+			c.Text = core.Pick(r, []string{"", "\n", "// only a comment\n", "/* block */", "   \n\n", "vars { }\n"})
+		}
 		if r.IntN(12) == 0 {
 			// many diagnostics: counts around the boundaries at which an exit status,
 			// a byte or a small buffer wraps
